@@ -943,9 +943,40 @@ class Super:
             tup = args[1]["p"]
             op = {"k": "move", "p": {"l": tup["l"], "pr": list(tup["pr"]) + [{"k": "field", "i": arg_local - 2, "name": str(arg_local - 2), "ty": "?"}], "ty": "?"}}
             return (ppath, cbb), caller, op
+        # a closure (or a function passed by name) run by a std combinator on one variant of its receiver:
+        # its value parameter is that variant's payload (`r.map_err(|e| ..)`: e = (r as Err).0)
+        pv = COMBINATOR_PAYLOAD.get(cf.get("def"))
+        callee = self.crate.by_id.get(callee_id)
+        if pv is not None and callee is not None and args and is_place(args[0]) and not any(lab == "call" for lab, m in self.edges((ppath, cbb)) if m[0] == path):
+            first = 2 if callee.raw["def_kind"] == "Closure" else 1
+            if arg_local == first:
+                rp = args[0]["p"]
+                op = {"k": "move", "p": {"l": rp["l"], "pr": list(rp["pr"]) + [{"k": "downcast", "variant": pv[0], "idx": pv[1]}, {"k": "field", "i": 0, "name": "0", "ty": "?"}], "ty": "?"}}
+                return (ppath, cbb), caller, op
+            if arg_local == 1 and first == 2:
+                # the closure's environment: the closure value handed to the combinator
+                for a in args[1:]:
+                    if is_place(a) and "{closure@" in caller.local_ty(a["p"]["l"]):
+                        return (ppath, cbb), caller, a
+            return None
         if 1 <= arg_local <= len(args):
             return (ppath, cbb), caller, args[arg_local - 1]
         return None
+
+
+# combinator -> (variant name, index) of the receiver whose payload the closure receives
+COMBINATOR_PAYLOAD = {
+    "std::result::Result::<T, E>::map_err": ("Err", 1),
+    "std::result::Result::<T, E>::or_else": ("Err", 1),
+    "std::result::Result::<T, E>::unwrap_or_else": ("Err", 1),
+    "std::result::Result::<T, E>::inspect_err": ("Err", 1),
+    "std::result::Result::<T, E>::map": ("Ok", 0),
+    "std::result::Result::<T, E>::and_then": ("Ok", 0),
+    "std::result::Result::<T, E>::inspect": ("Ok", 0),
+    "std::option::Option::<T>::map": ("Some", 1),
+    "std::option::Option::<T>::and_then": ("Some", 1),
+    "std::option::Option::<T>::filter": ("Some", 1),
+}
 
 
 # --------------------------------------------------------------------------- path-sensitive reachability
